@@ -1157,23 +1157,45 @@ LB_changed(LB* self, PyObject* ignored)
             cache = c
         return cache
 */
+/*
+ * NOTE: Hashing and comparing the keys (``provided``, ``name``,
+ * ``required``) and everything the ``_uncached_*`` methods do can run
+ * arbitrary Python code, including code that calls ``changed()`` (directly,
+ * or by mutating the registry, possibly from another thread) and so drops
+ * our cache dictionaries. Thus the functions below never work with borrowed
+ * references to those dictionaries: ``_subcache`` and ``_getcache`` return
+ * *new* references, and hold one to the dictionary they search.
+ */
 static PyObject*
 _subcache(PyObject* cache, PyObject* key)
 {
     PyObject* subcache;
 
-    subcache = PyDict_GetItem(cache, key);
+    Py_INCREF(cache);
+    subcache = PyDict_GetItemWithError(cache, key);
     if (subcache == NULL) {
         int status;
 
+        if (PyErr_Occurred()) {
+            /* hashing or comparing the key failed */
+            Py_DECREF(cache);
+            return NULL;
+        }
         subcache = PyDict_New();
-        if (subcache == NULL)
+        if (subcache == NULL) {
+            Py_DECREF(cache);
             return NULL;
+        }
         status = PyDict_SetItem(cache, key, subcache);
-        Py_DECREF(subcache);
-        if (status < 0)
+        if (status < 0) {
+            Py_DECREF(subcache);
+            Py_DECREF(cache);
             return NULL;
+        }
+    } else {
+        Py_INCREF(subcache);
     }
+    Py_DECREF(cache);
 
     return subcache;
 }
@@ -1182,6 +1204,7 @@ static PyObject*
 _getcache(LB* self, PyObject* provided, PyObject* name)
 {
     PyObject* cache;
+    int named;
 
     ASSURE_DICT(self->_cache);
 
@@ -1189,8 +1212,18 @@ _getcache(LB* self, PyObject* provided, PyObject* name)
     if (cache == NULL)
         return NULL;
 
-    if (name != NULL && PyObject_IsTrue(name))
-        cache = _subcache(cache, name);
+    if (name != NULL) {
+        named = PyObject_IsTrue(name);
+        if (named < 0) {
+            Py_DECREF(cache);
+            return NULL;
+        }
+        if (named) {
+            PyObject* subcache = _subcache(cache, name);
+            Py_DECREF(cache);
+            cache = subcache;
+        }
+    }
 
     return cache;
 }
@@ -1238,25 +1271,36 @@ _lookup(LB* self,
         return NULL;
 
     cache = _getcache(self, provided, name);
-    if (cache == NULL)
+    if (cache == NULL) {
+        Py_DECREF(required);
         return NULL;
+    }
 
     if (PyTuple_GET_SIZE(required) == 1)
         key = PyTuple_GET_ITEM(required, 0);
     else
         key = required;
 
-    result = PyDict_GetItem(cache, key);
+    result = PyDict_GetItemWithError(cache, key);
     if (result == NULL) {
         int status;
 
-        result = PyObject_CallMethodObjArgs(
-          OBJECT(self), str_uncached_lookup, required, provided, name, NULL);
-        if (result == NULL) {
+        if (PyErr_Occurred()) {
+            Py_DECREF(cache);
             Py_DECREF(required);
             return NULL;
         }
+        result = PyObject_CallMethodObjArgs(
+          OBJECT(self), str_uncached_lookup, required, provided, name, NULL);
+        if (result == NULL) {
+            Py_DECREF(cache);
+            Py_DECREF(required);
+            return NULL;
+        }
+        /* If the caches were dropped in the meantime, ``cache`` is not
+           reachable from ``self`` anymore and this is a no-op. */
         status = PyDict_SetItem(cache, key, result);
+        Py_DECREF(cache);
         Py_DECREF(required);
         if (status < 0) {
             Py_DECREF(result);
@@ -1264,6 +1308,7 @@ _lookup(LB* self,
         }
     } else {
         Py_INCREF(result);
+        Py_DECREF(cache);
         Py_DECREF(required);
     }
 
@@ -1325,10 +1370,13 @@ _lookup1(LB* self,
     if (cache == NULL)
         return NULL;
 
-    result = PyDict_GetItem(cache, required);
+    result = PyDict_GetItemWithError(cache, required);
     if (result == NULL) {
         PyObject* tup;
 
+        Py_DECREF(cache);
+        if (PyErr_Occurred())
+            return NULL;
         tup = PyTuple_New(1);
         if (tup == NULL)
             return NULL;
@@ -1341,6 +1389,7 @@ _lookup1(LB* self,
             result = default_;
         }
         Py_INCREF(result);
+        Py_DECREF(cache);
     }
 
     return result;
@@ -1499,23 +1548,38 @@ _lookupAll(LB* self, PyObject* required, PyObject* provided)
     if (required == NULL)
         return NULL;
 
-    ASSURE_DICT(self->_mcache);
+    if (self->_mcache == NULL) {
+        self->_mcache = PyDict_New();
+        if (self->_mcache == NULL) {
+            Py_DECREF(required);
+            return NULL;
+        }
+    }
 
     cache = _subcache(self->_mcache, provided);
-    if (cache == NULL)
+    if (cache == NULL) {
+        Py_DECREF(required);
         return NULL;
+    }
 
-    result = PyDict_GetItem(cache, required);
+    result = PyDict_GetItemWithError(cache, required);
     if (result == NULL) {
         int status;
 
+        if (PyErr_Occurred()) {
+            Py_DECREF(cache);
+            Py_DECREF(required);
+            return NULL;
+        }
         result = PyObject_CallMethodObjArgs(
           OBJECT(self), str_uncached_lookupAll, required, provided, NULL);
         if (result == NULL) {
+            Py_DECREF(cache);
             Py_DECREF(required);
             return NULL;
         }
         status = PyDict_SetItem(cache, required, result);
+        Py_DECREF(cache);
         Py_DECREF(required);
         if (status < 0) {
             Py_DECREF(result);
@@ -1523,6 +1587,7 @@ _lookupAll(LB* self, PyObject* required, PyObject* provided)
         }
     } else {
         Py_INCREF(result);
+        Py_DECREF(cache);
         Py_DECREF(required);
     }
 
@@ -1567,23 +1632,38 @@ _subscriptions(LB* self, PyObject* required, PyObject* provided)
     if (required == NULL)
         return NULL;
 
-    ASSURE_DICT(self->_scache);
+    if (self->_scache == NULL) {
+        self->_scache = PyDict_New();
+        if (self->_scache == NULL) {
+            Py_DECREF(required);
+            return NULL;
+        }
+    }
 
     cache = _subcache(self->_scache, provided);
-    if (cache == NULL)
+    if (cache == NULL) {
+        Py_DECREF(required);
         return NULL;
+    }
 
-    result = PyDict_GetItem(cache, required);
+    result = PyDict_GetItemWithError(cache, required);
     if (result == NULL) {
         int status;
 
+        if (PyErr_Occurred()) {
+            Py_DECREF(cache);
+            Py_DECREF(required);
+            return NULL;
+        }
         result = PyObject_CallMethodObjArgs(
           OBJECT(self), str_uncached_subscriptions, required, provided, NULL);
         if (result == NULL) {
+            Py_DECREF(cache);
             Py_DECREF(required);
             return NULL;
         }
         status = PyDict_SetItem(cache, required, result);
+        Py_DECREF(cache);
         Py_DECREF(required);
         if (status < 0) {
             Py_DECREF(result);
@@ -1591,6 +1671,7 @@ _subscriptions(LB* self, PyObject* required, PyObject* provided)
         }
     } else {
         Py_INCREF(result);
+        Py_DECREF(cache);
         Py_DECREF(required);
     }
 
@@ -1793,15 +1874,26 @@ _verify(VB* self)
     PyObject* changed_result;
 
     if (self->_verify_ro != NULL && self->_verify_generations != NULL) {
-        PyObject* generations;
+        PyObject *generations, *verify_ro, *verify_generations;
         int changed;
 
-        generations = _generations_tuple(self->_verify_ro);
-        if (generations == NULL)
+        /* Reading ``_generation`` and comparing can run Python code that
+           calls ``changed()``, which replaces these. */
+        verify_ro = self->_verify_ro;
+        verify_generations = self->_verify_generations;
+        Py_INCREF(verify_ro);
+        Py_INCREF(verify_generations);
+
+        generations = _generations_tuple(verify_ro);
+        Py_DECREF(verify_ro);
+        if (generations == NULL) {
+            Py_DECREF(verify_generations);
             return -1;
+        }
 
         changed = PyObject_RichCompareBool(
-          self->_verify_generations, generations, Py_NE);
+          verify_generations, generations, Py_NE);
+        Py_DECREF(verify_generations);
         Py_DECREF(generations);
         if (changed == -1)
             return -1;
